@@ -86,8 +86,11 @@ def model_d():
         K('S', 'G1'): const(('n', 7.0)), K('S', 'G4'): const(('n', 9.0)),
         K('S', 'H1'): fn('SUM', rng('S', 'G1:G5')),
         K('S', 'H2'): op('+', fn('COUNT', rng('S', 'G1:G5')), cell('S', 'G3')),
+        # a computed defined name (not a pure reference) and readers of its source cell
+        K('S', 'J1'): op('+', ['name', B, 'GROSS'], num(1)),
+        K('S', 'J2'): op('*', cell('S', 'A1'), num(3)),
     }
-    return {'cells': cells, 'arrays': {}, 'names': {'%s|BLOCK_TOTAL' % B: cell('S', 'E1')}, 'sheets': [[B, 'S']]}
+    return {'cells': cells, 'arrays': {}, 'names': {'%s|BLOCK_TOTAL' % B: cell('S', 'E1'), '%s|GROSS' % B: op('*', cell('S', 'A1'), num(2))}, 'sheets': [[B, 'S']]}
 
 
 MODELS = {'a': model_a, 'b': model_b, 'c': model_c, 'd': model_d}
